@@ -14,6 +14,7 @@ MC_CFG = """CONSTANTS Dg = {D}
  Acts <- {acts}
  IdxCat <- {idx}
  Scalars <- {scal}
+ CmpScalars <- {cmps}
  ReshapeCat <- {rs}
  MaxLen = {maxlen}
  MaxObjs = {maxobjs}
@@ -29,9 +30,9 @@ CHECK_DEADLOCK FALSE
 """
 
 
-def cfg(D, P, pool, acts, idx="IdxSmall", scal="ScalOne", rs="NoRs", maxlen=2, maxobjs=5, emit=True):
+def cfg(D, P, pool, acts, idx="IdxSmall", scal="ScalOne", rs="NoRs", maxlen=2, maxobjs=5, emit=True, cmps="NoScal"):
     return MC_CFG.format(D=D, P=P, pool=pool, acts=acts, idx=idx, scal=scal, rs=rs, maxlen=maxlen,
-                         maxobjs=maxobjs, emit="TRUE" if emit else "FALSE")
+                         maxobjs=maxobjs, emit="TRUE" if emit else "FALSE", cmps=cmps)
 
 
 def py_index(ix):
@@ -86,6 +87,8 @@ class Replayer:
                 numpy.array(float(to_frac(o["vals"][0])))
             if o["k"] == "U":
                 self.objs.append(algopy.UTPM(vals.copy()))
+            elif o["k"] == "Z":
+                self.objs.append(vals.copy())
             else:
                 a = vals.copy()
                 if variant % 3 == 1 and all(to_frac(v).denominator == 1 for v in o["vals"]):
@@ -158,6 +161,15 @@ class Replayer:
             res = al.sum(X[i], axis=ax) if self.variant % 2 == 0 else (X[i].sum(axis=ax) if ax is not None else numpy.sum(X[i]))
             if self.slicewise:
                 self.slice_check(res, X[i], lambda s: numpy.sum(s, axis=ax), "sum", exact=False)
+        elif a == "cmp":
+            import operator as _op
+            relf = {"lt": _op.lt, "le": _op.le, "gt": _op.gt, "ge": _op.ge, "eq": _op.eq, "ne": _op.ne}[rec["rel"]]
+            rhs = X[j] if rec["j"] else scalar_of(rec["c"], self.variant)
+            got = relf(X[i], rhs)
+            if rec["rel"] in ("eq", "ne") and not isinstance(got, (bool, numpy.bool_)):
+                raise Mismatch("cmp-type", "%s returns %s" % (rec["rel"], type(got).__name__))
+            if bool(got) != bool(rec["res"]):
+                raise Mismatch("cmp", "x %s y is %r, spec %r" % (rec["rel"], bool(got), rec["res"]))
         else:
             raise Machinery("unknown action " + a)
         if res is not None:
@@ -268,6 +280,8 @@ def act_sig(rec, prefix, init):
         s += ":%d" % rec["n"]
     if a == "sum":
         s += ":axis=%s" % ("None" if rec["axis"] == NONE else rec["axis"])
+    if a == "cmp":
+        s += ":" + rec["rel"] + (":scalar" if not rec["j"] else "")
     return s
 
 
@@ -317,3 +331,158 @@ def self_test(rep):
         except Mismatch:
             continue
         raise Machinery("self-test: corrupted %s not detected" % mode)
+
+
+# ----------------------------------------------------------------------------- relational replays (C10, C11, C12)
+
+def sub_init(init, Dp=None, p=None, zeroth=False):
+    """initial pool restricted to the first Dp coefficients / to direction p / (zeroth) to plain arrays of coefficient 0"""
+    out = []
+    for o in init:
+        if o["k"] != "U":
+            out.append(dict(o)); continue
+        shape = list(o["shape"])
+        vals = numpy.array([to_frac(v) for v in o["vals"]], dtype=object).reshape(shape)
+        if Dp is not None:
+            vals = vals[:Dp]
+        if p is not None:
+            vals = vals[:, p:p + 1]
+        if zeroth:
+            vals = vals[0, 0]
+            k = "Z"
+        else:
+            k = "U"
+        if not isinstance(vals, numpy.ndarray):
+            vals = numpy.array(vals, dtype=object)
+        flat = list(vals.reshape(-1))
+        out.append({"k": k, "buf": o["buf"], "shape": list(vals.shape), "cells": list(range(1, len(flat) + 1)),
+                    "vals": [[f.numerator, f.denominator] for f in flat]})
+    return out
+
+
+class NumpyReplayer(Replayer):
+    """the same behaviour executed by NumPy on zeroth coefficients (reference for C10)"""
+
+    def step(self, rec):
+        a = rec["a"]
+        X = self.objs
+        i = rec.get("i", 0) - 1; j = rec.get("j", 0) - 1
+        res = None
+        if a in ("bin", "bina"):
+            res = OPS[rec["op"]](X[i], X[j]) if rec.get("side", "r") == "r" else OPS[rec["op"]](X[j], X[i])
+        elif a == "bins":
+            c = scalar_of(rec["c"], self.variant)
+            res = OPS[rec["op"]](X[i], c) if rec["side"] == "r" else OPS[rec["op"]](c, X[i])
+        elif a in ("ibin", "ibina"):
+            X[i][...] = OPS[rec["op"]](X[i], X[j])
+        elif a == "ibins":
+            X[i][...] = OPS[rec["op"]](X[i], scalar_of(rec["c"], self.variant))
+        elif a == "powi":
+            res = X[i] ** float(rec["n"]) if rec["n"] < 0 else X[i] ** int(rec["n"])
+        elif a == "unary":
+            f = rec["f"]
+            res = {"neg": lambda x: -x, "square": numpy.square, "reciprocal": lambda x: 1.0 / x, "clone": lambda x: x.copy(),
+                   "zeros_like": numpy.zeros_like}[f](X[i])
+        elif a == "getitem":
+            res = X[i][py_index(rec["ix"])]
+        elif a in ("setitem", "setitema"):
+            X[i][py_index(rec["ix"])] = X[j]
+        elif a == "setitems":
+            X[i][py_index(rec["ix"])] = scalar_of(rec["c"], self.variant)
+        elif a == "transpose":
+            res = X[i].T
+        elif a == "reshape":
+            res = X[i].reshape(tuple(rec["es"]))
+        elif a == "sum":
+            ax = None if rec["axis"] == NONE else int(rec["axis"])
+            res = numpy.sum(X[i], axis=ax)
+        elif a == "cmp":
+            return
+        else:
+            raise Machinery("unknown action " + a)
+        if res is not None:
+            self.objs.append(numpy.asarray(res))
+
+
+def relational(rep, algopy, records, tag, mode, limit=None, seed=0):
+    """mode 'dir': every multi-direction behaviour re-run on each single direction;
+       mode 'trunc': re-run on inputs truncated to every D' < D;
+       mode 'zeroth': NumPy on the zeroth coefficients of each direction (shape, len, size, ndim, values)."""
+    by_h = {json.dumps(r["h"], sort_keys=True): r for r in records}
+    init = by_h["[]"]["o"]
+    hs = [r["h"] for r in records]
+    prefixes = set()
+    for h in hs:
+        for n in range(len(h)):
+            prefixes.add(json.dumps(h[:n], sort_keys=True))
+    leaves = [h for h in hs if json.dumps(h, sort_keys=True) not in prefixes]
+    if limit and len(leaves) > limit:
+        import random
+        random.Random(seed).shuffle(leaves)
+        leaves = leaves[:limit]
+    U0 = next(o for o in init if o["k"] == "U")
+    D, P = U0["shape"][0], U0["shape"][1]
+    for bi, h in enumerate(leaves):
+        full = Replayer(algopy, init, variant=bi, slicewise=False)
+        subs = []
+        if mode == "dir":
+            subs = [("direction %d" % p, dict(p=p), Replayer(algopy, sub_init(init, p=p), variant=bi, slicewise=False)) for p in range(P)]
+        elif mode == "trunc":
+            subs = [("truncated to D'=%d" % dp, dict(Dp=dp), Replayer(algopy, sub_init(init, Dp=dp), variant=bi, slicewise=False)) for dp in range(1, D)]
+        elif mode == "zeroth":
+            subs = [("numpy on zeroth coefficients of direction %d" % p, dict(p=p, zeroth=True), NumpyReplayer(algopy, sub_init(init, p=p, zeroth=True), variant=bi, slicewise=False)) for p in range(P)]
+        bad = None
+        for n, rec in enumerate(h):
+            try:
+                full.step(rec)
+            except Exception as e:
+                break           # the behaviour itself is checked by the exact replay, not here
+            for name, kw, sub in subs:
+                try:
+                    sub.step(rec)
+                except Exception as e:
+                    bad = ("%s raises %s in the reduced run" % (act_sig(rec, h[:n], init), type(e).__name__), name, repr(e)[-200:]); break
+                if len(sub.objs) != len(full.objs):
+                    bad = (act_sig(rec, h[:n], init) + " object-count", name, ""); break
+                for k in range(len(full.objs)):
+                    fo, so = full.objs[k], sub.objs[k]
+                    if not isinstance(fo, algopy.UTPM):
+                        continue
+                    fd = fo.data
+                    if mode == "dir":
+                        want = fd[:, kw["p"]:kw["p"] + 1]; got = so.data
+                    elif mode == "trunc":
+                        want = fd[:kw["Dp"]]; got = so.data
+                    else:
+                        want = fd[0, kw["p"]]; got = numpy.asarray(so)
+                        # shape, len, size, ndim follow NumPy
+                        if fo.shape != numpy.shape(got) or fo.ndim != numpy.ndim(got) or fo.size != numpy.size(got) or \
+                                (numpy.ndim(got) > 0 and len(fo) != len(got)):
+                            bad = (act_sig(rec, h[:n], init) + " shape/len/size/ndim", name,
+                                   "object %d: UTPM shape %s ndim %s size %s, numpy %s" % (k + 1, fo.shape, fo.ndim, fo.size, numpy.shape(got))); break
+                    if numpy.shape(want) != numpy.shape(got) or not numpy.allclose(want, got, rtol=1e-12, atol=1e-13):
+                        bad = (act_sig(rec, h[:n], init) + " value", name, "object %d" % (k + 1)); break
+                if bad:
+                    break
+            if bad:
+                rep.violation("%s [%s]" % (bad[0], mode), {"behaviour": h[:n + 1], "reduced_run": bad[1], "what": bad[2], "spec": tag,
+                                                          "initial_objects": init})
+                break
+        rep.case((tag, mode, json.dumps(h, sort_keys=True)), nontrivial=len(h) >= 1)
+        rep.replayed(1)
+    return len(leaves)
+
+
+def relational_check(rep, configs, mode, limit=None):
+    algopy = load_algopy()
+    for c in configs:
+        c = dict(c)
+        name = c.pop("name")
+        sim = c.pop("simulate", None); depth = c.pop("depth", None)
+        kw = dict(simulate=sim, depth=depth, seed=rep.seed) if sim else {}
+        res = run_tlc("MC_UTPM", cfg(**c), workers=16, timeout=1500, **kw)
+        tlc_ok(res, "MC_UTPM " + name)
+        rep.add_tlc(res, name)
+        n = relational(rep, algopy, res.records, name, mode, limit=limit, seed=rep.seed)
+        big = max(res.records, key=lambda r: len(r["h"]))
+        rep.sample({"config": name, "mode": mode, "behaviour": big["h"]}, maxn=4)
